@@ -6,6 +6,26 @@ VF = "graph/validation.py:"
 NODES = DICT(STR, OBJ("HyperNode"))
 END_IMP = {"END": "hypergraph.nodes.gate"}
 
+REQUIRED_VALIDATORS = ["_validate_graph_name", "_validate_reserved_names", "_validate_valid_identifiers", "_validate_no_namespace_collision",
+                       "_validate_consistent_defaults", "_validate_gate_targets", "_validate_no_gate_self_loop", "_validate_multi_target_output_conflicts",
+                       "_validate_no_interrupt_in_map_over", "_validate_no_cache_on_non_function_nodes", "_validate_wait_for_references"]
+
+
+def all_validators_called(tr, outcome, raised, env, ex, s):
+    """On every path that returns normally each validator has been called with the graph's node map (graph name for the
+    name check); `_validate_types` has been called iff strict_types."""
+    from contracts.tracelib import calls
+    if outcome.startswith("raise"):
+        return True
+    for v in REQUIRED_VALIDATORS:
+        if not calls(tr, v):
+            return False
+    from pyvc.engine import truth
+    import z3
+    strict = truth(env["strict_types"], s)
+    return strict if calls(tr, "_validate_types") else z3.Not(strict)
+
+
 CONTRACTS = {
     VF + "_validate_gate_targets": dict(
         props=["C19"],
@@ -30,6 +50,8 @@ CONTRACTS = {
         props=["C19", "C17"],
         params={"nodes": NODES},
         returns=NONE_T,
+        # type invariant of the input (HyperNode.wait_for: tuple[str, ...]) stated as a precondition
+        requires=["all(all(isinstance(w, str) for w in n.wait_for) for n in nodes.values())"],
         raises={"GraphConfigError": "any(any(not any(w in m.outputs for m in nodes.values()) for w in n.wait_for) for n in nodes.values())"},
         loops=[
             {"invariant": ["forall_keys(lambda k: (k in all_outputs) == any(k in m.outputs for m in _seq[:_i]), all_outputs)"]},
@@ -46,5 +68,27 @@ CONTRACTS = {
         returns=NONE_T,
         raises={"GraphConfigError": "graph_name is not None and ('.' in graph_name or '/' in graph_name)"},
         loops=[{"invariant": ["not any(ch in graph_name for ch in _seq[:_i])"]}],
+    ),
+    VF + "_validate_valid_identifiers": dict(
+        props=["C19"],
+        params={"nodes": NODES},
+        returns=NONE_T,
+        imports={"GraphNode": "hypergraph.nodes.graph_node", "iskeyword": "keyword"},
+        raises={"GraphConfigError": "any(not isinstance(n, GraphNode) and (not n.name.isidentifier() or iskeyword(n.name) or any(not o.isidentifier() or iskeyword(o) for o in n.outputs)) for n in nodes.values())"},
+        loops=[
+            {"invariant": ["not any(not isinstance(n, GraphNode) and (not n.name.isidentifier() or iskeyword(n.name) or any(not o.isidentifier() or iskeyword(o) for o in n.outputs)) for n in _seq[:_i])"]},
+            {"invariant": ["not any(not isinstance(n, GraphNode) and (not n.name.isidentifier() or iskeyword(n.name) or any(not o.isidentifier() or iskeyword(o) for o in n.outputs)) for n in _seq0[:_i0])",
+                           "not isinstance(node, GraphNode) and node.name.isidentifier() and not iskeyword(node.name)",
+                           "not any(not o.isidentifier() or iskeyword(o) for o in _seq[:_i])"]},
+        ],
+    ),
+    VF + "validate_graph": dict(
+        props=["C19"],
+        params={"nodes": NODES, "nx_graph": ANY, "graph_name": OPT(STR), "strict_types": BOOL},
+        returns=NONE_T,
+        requires=["all(all(isinstance(w, str) for w in n.wait_for) for n in nodes.values())"],
+        may_raise={"Exception": True},
+        trace=[{"name": "C19 every build-time validator runs before the constructor accepts; the type check runs exactly in strict mode",
+                "check": all_validators_called}],
     ),
 }
